@@ -197,6 +197,7 @@ func c18ViewBoxSize(c *core.Check) {
 	// the rectangle: the allocation returned as first result
 	var rectAlloc *ssa.Alloc
 	var site *ssa.BasicBlock
+	var sites []*ssa.BasicBlock
 	core.Instrs(fn, func(in ssa.Instruction) {
 		ret, ok := in.(*ssa.Return)
 		if !ok || len(ret.Results) != 2 {
@@ -204,6 +205,7 @@ func c18ViewBoxSize(c *core.Check) {
 		}
 		if al, ok := ret.Results[0].(*ssa.Alloc); ok {
 			rectAlloc, site = al, ret.Block()
+			sites = append(sites, ret.Block())
 		}
 	})
 	if rectAlloc == nil {
@@ -286,7 +288,13 @@ func c18ViewBoxSize(c *core.Check) {
 		}
 		return true
 	}
-	ok, _ := core.GuardedBy(fn, site, atoms, req)
+	ok := true
+	for _, st := range sites {
+		if g, _ := core.GuardedBy(fn, st, atoms, req); !g {
+			ok = false
+		}
+	}
+	_ = site
 	r.Cond(ok, key, p.Pos(fn.Pos()), "both sizes are decided non-negative on every path that returns the rectangle without an error", "a path returns the parsed rectangle without an error and without having compared its Width and Height with zero: viewBox=\"0 0 -10 -10\" mirrors the image")
 }
 
@@ -348,6 +356,36 @@ func c18MissingSizeIsAuto(c *core.Check) {
 			}
 			if n := origin(fa.X); n != "" && len(*b.Referrers()) > 0 {
 				tested[n] = true
+			}
+		})
+		// the test may live in a helper the value is handed to: a function that compares the unit of its parameter with 0
+		core.Instrs(fn, func(in ssa.Instruction) {
+			call, ok := in.(*ssa.Call)
+			if !ok || call.Call.StaticCallee() == nil || len(call.Call.StaticCallee().Blocks) == 0 {
+				return
+			}
+			helperTests := false
+			core.Instrs(call.Call.StaticCallee(), func(in2 ssa.Instruction) {
+				if b, ok := in2.(*ssa.BinOp); ok && (b.Op == token.EQL || b.Op == token.NEQ) {
+					if z, ok := core.ConstInt(b.Y); ok && z == 0 && core.IsFieldNamed(b.X, "U") {
+						helperTests = true
+					}
+				}
+			})
+			if !helperTests {
+				return
+			}
+			for _, a := range call.Call.Args {
+				if ld, ok := a.(*ssa.UnOp); ok && ld.Op == token.MUL {
+					if fa, ok := ld.X.(*ssa.FieldAddr); ok {
+						if n := core.FieldName(fa); n == "width" || n == "height" {
+							tested[n] = true
+						}
+					}
+					if n := origin(ld.X); n != "" {
+						tested[n] = true
+					}
+				}
 			}
 		})
 		for _, f := range []string{"width", "height"} {
